@@ -92,6 +92,18 @@ def run_shard(spec, acc):
                 log.take()
     finally:
         log.close()
+    if curve == 'UnitSquare' and spec['name'].endswith('-0'):
+        # the recorded finding's own witness: a small element next to a corner, a 64 times longer one on the other side
+        from src.mesh import Vertex
+        gam = mesh.gamma_space
+
+        def dummy(t, x):
+            vs = [Vertex(t[0], x[0], -1), Vertex(t[0], x[1], -1), Vertex(t[1], x[1], -1), Vertex(t[1], x[0], -1)]
+            return DummyElement(vs, gam.pw_gamma[geo.piece_of(*x)])
+        h = 0.5 / 64
+        tr_w, te_w = dummy((0.0, 1.0), (0.5, 1.0)), dummy((0.0, 1.0), (1.0 + h, 1.0 + 2 * h))
+        events.append(('matrix', False, te_w, tr_w, SingleLayerOperator(mesh).bilform(tr_w, te_w)))
+        log_dummy = True
     acc.count('bilform_events', len(events))
     # classify
     cells = {}
@@ -160,7 +172,11 @@ def run_shard(spec, acc):
         acc.worst_of(cls, err)
         acc.worst_of('reference-disagreement', dis / D)
         if err > TOL:
-            acc.violation('entry-inexact:%s:%s:%s' % (sr, tr, 'exact' if exact else 'quad'),
+            ratio = max(test.h_x / trial.h_x, trial.h_x / test.h_x)
+            key = 'entry-inexact:%s:%s:%s' % (sr, tr, 'exact' if exact else 'quad')
+            if sr == 'disjoint-other-piece' and ratio >= 32:
+                key = 'entry-inexact:disjoint-other-piece:size-ratio>=32'   # recorded finding, see known-findings.txt
+            acc.violation(key,
                           '%s: <V 1_trial,1_test> = %.17g, reference %.17g, error %.3e of sqrt(D_test D_trial) (test %r, trial %r, pw_exact=%r)'
                           % (curve, val, ref, err, elem_key(test), elem_key(trial), exact),
                           dict(wit0, test=elem_key(test), trial=elem_key(trial), pw_exact=exact, computed=val, reference=ref, scaled_error=err))
